@@ -1,65 +1,89 @@
-(* ServerSeq.v — C09, one handler at a time. *)
+(* ServerSeq.v — C09, one handler at a time.
+   The invariant is functional: for every url the entry of doc_state is exactly the one determined by the
+   client's state (language, newest text, ignore list, version), the dictionary files and the settings
+   (`coh`), and the last publication is the expected one (`fresh`). *)
 Require Import Base Server ServerLemmas.
 
-Definition text_ok (lg : lang) (t : text) : bool :=
-  match kind lg with KCode => t_ident t =? 0 | _ => true end.
+(* the identifier set merged into the dictionary of a document of language lg holding text t *)
+Definition idof (lg : lang) (t : text) : nat := match kind lg with KCode => t_ident t | _ => 0 end.
+Definition cur_dict (w : world) (u : url) : dictv := mkdict (w_udict w) (fdict_of w u) 0.
+Definition with_ident (d : dictv) (i : nat) : dictv := mkdict (dv_user d) (dv_file d) i.
 
-Definition coh (w : world) (u : url) : Prop := pubval w u = expected w u.
+(* the DocumentState an up-to-date server holds for an open document *)
+Definition good_entry (w : world) (u : url) (cd : cdoc) : entry :=
+  let i := idof (cd_lang cd) (cd_text cd) in
+  let d := with_ident (cur_dict w u) i in
+  mkentry (Some (cd_lang cd)) d i (w_ccfg w) (Some (cd_text cd)) (w_ccfg w) (cd_ign cd) (cur_dict w u) d (Some (cd_ver cd)).
+
+Definition want_entry (w : world) (u : url) : option entry :=
+  match lookup u (w_open w) with
+  | Some cd => match kind (cd_lang cd) with KNone => None | _ => Some (good_entry w u cd) end
+  | None => None
+  end.
+
+Definition coh (w : world) (u : url) : Prop := lookup u (s_docs w) = want_entry w u.
 
 Record Inv (w : world) : Prop := mkInv {
   inv_lock : s_lock w = false;
   inv_cfg : s_cfg w = w_ccfg w;
   inv_coh : forall u, coh w u;
-  inv_fresh : forall u, fresh w u;
-  inv_docs : forall u e, lookup u (s_docs w) = Some e -> e_text e <> None /\ e_lang e <> None /\ e_ident e = 0;
-  inv_text : forall u cd, lookup u (w_open w) = Some cd -> text_ok (cd_lang cd) (cd_text cd) = true
+  inv_fresh : forall u, fresh w u
 }.
 
-Definition cur_dict (w : world) (u : url) : dictv := mkdict (w_udict w) (fdict_of w u) 0.
+Lemma idof_plain : forall lg t, kind lg <> KCode -> idof lg t = 0.
+Proof. intros lg t H. unfold idof. destruct (kind lg); congruence. Qed.
 
-Lemma entry_facts : forall w u e, Inv w -> lookup u (s_docs w) = Some e ->
-  exists cd, lookup u (w_open w) = Some cd /\ e_lang e = Some (cd_lang cd) /\ kind (cd_lang cd) <> KNone /\
-    e_text e = Some (cd_text cd) /\ e_dict e = cur_dict w u /\ e_lcfg e = w_ccfg w /\ e_pcfg e = w_ccfg w /\
-    e_ign e = cd_ign cd /\ e_ident e = 0.
+Lemma with_ident_0 : forall w u, with_ident (cur_dict w u) 0 = cur_dict w u.
+Proof. reflexivity. Qed.
+
+(* doc_state agrees with the client => what publish_diagnostics sends is what the property demands *)
+Lemma coh_pubval : forall w u, s_cfg w = w_ccfg w -> coh w u -> pubval w u = expected w u.
 Proof.
-  intros w u e I He. destruct (inv_docs w I u e He) as (Ht & Hl & Hi).
-  pose proof (inv_coh w I u) as C. unfold coh, pubval, expected in C. rewrite He in C.
-  destruct (e_text e) as [t|] eqn:Et; [|congruence]. destruct (e_lang e) as [lg|] eqn:El; [|congruence].
-  destruct (lookup u (w_open w)) as [cd|] eqn:Eo; [|discriminate].
-  pose proof (inv_text w I u cd Eo) as Tk. unfold text_ok in Tk.
-  exists cd. destruct (kind (cd_lang cd)) eqn:Ek; try discriminate; inversion C; subst;
-    (split; [reflexivity|]); rewrite ?Ek; repeat split; try congruence; try reflexivity.
-  - unfold cur_dict. destruct (e_dict e); cbn in *. congruence.
-  - apply Nat.eqb_eq in Tk. unfold cur_dict. destruct (e_dict e); cbn in *. congruence.
+  intros w u Hc C. unfold coh, want_entry in C. unfold pubval, expected. rewrite C.
+  destruct (lookup u (w_open w)) as [cd|]; [|reflexivity].
+  unfold good_entry, idof. destruct (kind (cd_lang cd)) eqn:Ek; cbn; rewrite ?Hc; reflexivity.
 Qed.
 
-Lemma no_entry_facts : forall w u, Inv w -> lookup u (s_docs w) = None ->
+Lemma coh_entry : forall w u e, coh w u -> lookup u (s_docs w) = Some e ->
+  exists cd, lookup u (w_open w) = Some cd /\ kind (cd_lang cd) <> KNone /\ e = good_entry w u cd.
+Proof.
+  intros w u e C He. unfold coh, want_entry in C. rewrite He in C.
+  destruct (lookup u (w_open w)) as [cd|]; [|discriminate]. exists cd.
+  destruct (kind (cd_lang cd)) eqn:Ek; try discriminate; inversion C; repeat split; congruence.
+Qed.
+
+Lemma coh_no_entry : forall w u, coh w u -> lookup u (s_docs w) = None ->
   match lookup u (w_open w) with Some cd => kind (cd_lang cd) = KNone | None => True end.
 Proof.
-  intros w u I He. pose proof (inv_coh w I u) as C. unfold coh, pubval, expected in C. rewrite He in C.
+  intros w u C He. unfold coh, want_entry in C. rewrite He in C.
   destruct (lookup u (w_open w)) as [cd|]; [|exact Logic.I]. destruct (kind (cd_lang cd)); try discriminate. reflexivity.
 Qed.
 
 (* ---------- update_document, run without interruption ---------- *)
-Definition installed (w : world) (u : url) (t : text) (lgo : option lang) : list (url * entry) :=
+(* the entry update_document leaves for u (None: it removes the document), when the dictionary files and
+   the settings are those of w throughout *)
+Definition upd_entry (w : world) (u : url) (t : text) (lgo : option lang) (nv : option nat) : option entry :=
   let c := w_ccfg w in
-  match lookup u (s_docs w) with
-  | Some e => upsert u (e_set_doc t c (if dictv_eqb (e_dict e) (cur_dict w u) then e else e_set_dict (cur_dict w u) c e)) (s_docs w)
-  | None =>
-      match lgo with
-      | Some lg =>
-          match kind lg with
-          | KNone => remove u (s_docs w)
-          | _ => upsert u (e_set_doc t c (new_entry (Some lg) (cur_dict w u) c)) (s_docs w)
-          end
-      | None => remove u (s_docs w)
+  let d := cur_dict w u in
+  let e1 := rebase d c (match lookup u (s_docs w) with Some e => e | None => new_entry lgo d c end) in
+  if stale nv (e_ver e1) then Some e1 else
+  let e2 := bump nv e1 in
+  match e_lang e2 with
+  | None => None
+  | Some lg =>
+      match kind lg with
+      | KNone => None
+      | KPlain => Some (e_set_doc t c e2)
+      | KCode =>
+          if e_ident e2 =? t_ident t then Some (e_set_doc t c e2)
+          else Some (e_set_doc t c (e_set_dict (with_ident d (t_ident t)) c (e_set_ident (t_ident t) e2)))
       end
   end.
 
-Definition entry_cond (w : world) (u : url) (t : text) (lgo : option lang) : Prop :=
-  match lookup u (s_docs w) with
-  | Some e => exists lge, e_lang e = Some lge /\ kind lge <> KNone /\ (kind lge = KCode -> e_ident e = t_ident t)
-  | None => forall lg, lgo = Some lg -> kind lg = KCode -> t_ident t = 0
+Definition installed (w : world) (u : url) (t : text) (lgo : option lang) (nv : option nat) : list (url * entry) :=
+  match upd_entry w u t lgo nv with
+  | Some e => upsert u e (s_docs w)
+  | None => remove u (s_docs w)
   end.
 
 Ltac fuel_step H :=
@@ -70,140 +94,116 @@ Ltac fuel_step H :=
 Ltac open_fuel H :=
   match type of H with run_prog ?f _ _ _ = _ => let f' := fresh "f" in let E := fresh "Ef" in remember f as f' eqn:E; clear E end.
 
-Lemma update_run : forall f rest l w w' t,
-  s_lock w = false -> l_text l = Some t -> entry_cond w (l_url l) t (l_lang l) ->
-  run_prog f (update_seq ++ rest) l w = Some w' ->
-  exists f' l', run_prog f' rest l' (set_docs (installed w (l_url l) t (l_lang l)) (set_scfg (w_ccfg w) w)) = Some w' /\
+Lemma remove_idem : forall {V} u (m : list (url * V)), remove u (remove u m) = remove u m.
+Proof.
+  induction m as [|[k v] m IH]; cbn; [reflexivity|].
+  destruct (url_eqb u k) eqn:E; [exact IH|]. cbn. rewrite E. f_equal. exact IH.
+Qed.
+
+Lemma upsert_upsert : forall {V} u (a b : V) m, upsert u a (upsert u b m) = upsert u a m.
+Proof. intros. unfold upsert. cbn. rewrite url_eqb_refl, remove_idem. reflexivity. Qed.
+
+(* the critical section of update_document, including use_ident_dict when the identifiers changed *)
+Lemma critical_run : forall f rest l w w' t,
+  s_lock w = false -> l_text l = Some t -> l_snap l = w_ccfg w -> l_ud l = w_udict w -> l_fd l = fdict_of w (l_url l) ->
+  run_prog f (IUpdate :: rest) l w = Some w' ->
+  exists f' l', run_prog f' rest l' (set_docs (installed w (l_url l) t (l_lang l) (l_ver l)) w) = Some w' /\
                 l_url l' = l_url l /\ l_queue l' = l_queue l.
 Proof.
-  intros f rest l w w' t Hlock Ht EC H. unfold update_seq in H. cbn [app] in H.
-  do 7 (fuel_step H; cbn [exec app] in H).
-  cbn in H. rewrite Hlock, Ht in H.
-  change (fdict_of (set_scfg (w_ccfg w) w) (l_url l)) with (fdict_of w (l_url l)) in H.
-  fold (cur_dict w (l_url l)) in H.
-  unfold entry_cond in EC. unfold installed.
-  destruct (lookup (l_url l) (s_docs w)) as [e|] eqn:He.
-  - destruct EC as (lge & Hl & Hk & Hi).
-    destruct (dictv_eqb (e_dict e) (cur_dict w (l_url l))) eqn:Ed; cbn [e_lang e_set_dict e_ident] in H; rewrite Hl in H;
-      (destruct (kind lge) eqn:Ek; [| |congruence]);
-      rewrite ?(Hi eq_refl), ?Nat.eqb_refl in H; cbn [app] in H; do 2 eexists; (split; [exact H|]); split; reflexivity.
-  - destruct (l_lang l) as [lg|] eqn:El; cbn [new_entry e_dict e_lang] in H; rewrite dictv_eqb_refl in H; cbn [new_entry e_lang e_ident] in H.
-    + destruct (kind lg) eqn:Ek.
-      * cbn [app] in H. do 2 eexists. split; [exact H|]. split; reflexivity.
-      * rewrite (EC lg eq_refl Ek) in H. cbn [Nat.eqb app] in H.
-        do 2 eexists. split; [exact H|]. split; reflexivity.
-      * cbn [app] in H. do 2 eexists. split; [exact H|]. split; reflexivity.
-    + cbn [app] in H. do 2 eexists. split; [exact H|]. split; reflexivity.
+  intros f rest l w w' t Hlock Ht Hs Hu Hf H.
+  fuel_step H. cbn [exec] in H. rewrite Hlock, Ht, Hs, Hu, Hf in H.
+  fold (cur_dict w (l_url l)) in H. unfold installed, upd_entry.
+  set (e1 := rebase _ _ _) in *.
+  destruct (stale (l_ver l) (e_ver e1)).
+  { cbn [app] in H. exists f, l. split; [exact H|split; reflexivity]. }
+  set (e2 := bump _ e1) in *.
+  destruct (e_lang e2) as [lg|]; [|cbn [app] in H; exists f, l; split; [exact H|split; reflexivity]].
+  destruct (kind lg).
+  - cbn [app] in H. exists f, l. split; [exact H|split; reflexivity].
+  - destruct (e_ident e2 =? t_ident t).
+    + cbn [app] in H. exists f, l. split; [exact H|split; reflexivity].
+    + cbn [app] in H.
+      do 3 (fuel_step H; cbn [exec app] in H).
+      cbn [l_text lset_fd lset_ud l_url s_docs set_lock set_docs l_snap l_ud l_fd w_udict] in H.
+      rewrite Ht, lookup_upsert_eq in H.
+      change (fdict_of (set_lock true (set_docs (upsert (l_url l) (e_set_ident (t_ident t) e2) (s_docs w)) w)) (l_url l))
+        with (fdict_of w (l_url l)) in H.
+      cbn [e_ident e_set_ident app] in H. rewrite Hs in H.
+      exists f, (lset_fd (fdict_of w (l_url l)) (lset_ud (w_udict w) l)). split; [|split; reflexivity].
+      match goal with H : run_prog f rest ?L ?W = Some w' |- run_prog f rest ?L ?W' = Some w' => replace W' with W; [exact H|] end.
+      unfold with_ident, cur_dict. cbn [dv_user dv_file].
+      destruct w; cbn in *; subst. rewrite upsert_upsert. reflexivity.
+  - cbn [app] in H. exists f, l. split; [exact H|split; reflexivity].
+Qed.
+
+Definition update_seq_pre : list instr := [ICfgReq; IAnswer; IRecv; ISnap; IReadUD; IReadFD].
+
+Lemma update_run : forall f rest l w w' t,
+  s_lock w = false -> l_text l = Some t ->
+  run_prog f (update_seq ++ rest) l w = Some w' ->
+  exists f' l', run_prog f' rest l' (set_docs (installed w (l_url l) t (l_lang l) (l_ver l)) (set_scfg (w_ccfg w) w)) = Some w' /\
+                l_url l' = l_url l /\ l_queue l' = l_queue l.
+Proof.
+  intros f rest l w w' t Hlock Ht H. unfold update_seq in H. cbn [app] in H.
+  do 6 (fuel_step H; cbn [exec app] in H).
+  apply critical_run with (t := t) in H; try reflexivity; [|exact Hlock|exact Ht].
+  destruct H as (f' & l' & H & A & B). exists f', l'. split; [exact H|]. split; [exact A|exact B].
 Qed.
 
 (* ---------- what one update + publish does to the invariant ---------- *)
 Definition others_ok (w : world) (u : url) : Prop := forall v, v <> u -> coh w v /\ fresh w v.
-Definition docs_ok (w : world) : Prop :=
-  forall v e, lookup v (s_docs w) = Some e -> e_text e <> None /\ e_lang e <> None /\ e_ident e = 0.
-Definition texts_ok (w : world) : Prop :=
-  forall v cd, lookup v (w_open w) = Some cd -> text_ok (cd_lang cd) (cd_text cd) = true.
 
-(* the state of document u just before an update that installs text t with language argument lgo *)
-Definition ready (w : world) (u : url) (t : text) (lgo : option lang) : Prop :=
-  match lookup u (w_open w) with
-  | Some cd =>
-      match lookup u (s_docs w) with
-      | Some e => cd_text cd = t /\ e_lang e = Some (cd_lang cd) /\ kind (cd_lang cd) <> KNone /\
-                  (e_dict e = cur_dict w u -> e_lcfg e = w_ccfg w) /\ e_ign e = cd_ign cd
-      | None => (cd_text cd = t /\ lgo = Some (cd_lang cd) /\ cd_ign cd = []) \/
-                (kind (cd_lang cd) = KNone /\ (lgo = None \/ lgo = Some (cd_lang cd)))
-      end
-  | None => lookup u (s_docs w) = None /\ lgo = None
-  end.
-
-Lemma pubval_send : forall w v p u, pubval (send v p w) u = pubval w u.
-Proof. reflexivity. Qed.
-Lemma expected_send : forall w v p u, expected (send v p w) u = expected w u.
-Proof. reflexivity. Qed.
-
-(* the world after update + publish of u, piece by piece *)
-Lemma install_spec : forall w u t lgo,
-  s_lock w = false -> s_cfg w = w_ccfg w -> docs_ok w -> texts_ok w -> ready w u t lgo ->
-  let w1 := set_docs (installed w u t lgo) (set_scfg (w_ccfg w) w) in
-  let w2 := send u (pubval w1 u) w1 in
-  (coh w2 u /\ fresh w2 u) /\ docs_ok w2 /\
-  (forall v, v <> u -> lookup v (s_docs w2) = lookup v (s_docs w) /\ pubval w2 v = pubval w v /\ lastword w2 v = lastword w v) /\
-  (forall v, expected w2 v = expected w v).
+Lemma want_entry_same : forall w w' u,
+  w_open w' = w_open w -> w_udict w' = w_udict w -> w_fdict w' = w_fdict w -> w_ccfg w' = w_ccfg w ->
+  want_entry w' u = want_entry w u.
 Proof.
-  intros w u t lgo Hl Hc Hd Ht Hr w1 w2.
-  assert (Hexp : forall v, expected w2 v = expected w v) by reflexivity.
-  assert (Hlk : forall v, v <> u -> lookup v (s_docs w2) = lookup v (s_docs w)).
-  { intros v Hv. apply url_eqb_neq in Hv. change (s_docs w2) with (installed w u t lgo). unfold installed.
-    destruct (lookup u (s_docs w)) as [e|]; [rewrite lookup_upsert_neq by exact Hv; reflexivity|].
-    destruct lgo as [lg|]; [destruct (kind lg)|]; rewrite ?lookup_upsert_neq, ?lookup_remove_neq by exact Hv; reflexivity. }
-  assert (Hpv : forall v, v <> u -> pubval w2 v = pubval w v).
-  { intros v Hv. unfold pubval. rewrite (Hlk v Hv). change (s_cfg w2) with (w_ccfg w). rewrite <- Hc. reflexivity. }
-  assert (Hcu : pubval w1 u = expected w u).
-  { unfold ready in Hr. unfold pubval, expected, w1, installed. cbn [s_docs set_docs s_cfg set_scfg].
-    destruct (lookup u (w_open w)) as [cd|] eqn:Eo.
-    - pose proof (Ht u cd Eo) as Tk. unfold text_ok in Tk.
-      destruct (lookup u (s_docs w)) as [e|] eqn:Ee.
-      + destruct Hr as (Htx & H1 & H2 & H4 & H5). rewrite lookup_upsert_eq.
-        assert (Hid : (match kind (cd_lang cd) with KCode => t_ident (cd_text cd) | _ => 0 end) = 0).
-        { destruct (kind (cd_lang cd)); try reflexivity. apply Nat.eqb_eq in Tk. exact Tk. }
-        destruct (dictv_eqb (e_dict e) (cur_dict w u)) eqn:Ed.
-        * apply dictv_eqb_eq in Ed. cbn. rewrite H1, Ed, (H4 Ed), H5, Htx.
-          destruct (kind (cd_lang cd)) eqn:Ek; [reflexivity| |congruence].
-          rewrite <- Htx, Hid. reflexivity.
-        * cbn. rewrite H1, H5, Htx.
-          destruct (kind (cd_lang cd)) eqn:Ek; [reflexivity| |congruence].
-          rewrite <- Htx, Hid. reflexivity.
-      + destruct Hr as [(Htx & H1 & H2)|[H1 H2]].
-        * subst lgo. destruct (kind (cd_lang cd)) eqn:Ek; rewrite ?lookup_upsert_eq, ?lookup_remove_eq; cbn; rewrite ?H2, ?Htx; try reflexivity.
-          rewrite <- Htx. apply Nat.eqb_eq in Tk. rewrite Tk. reflexivity.
-        * rewrite H1. destruct H2 as [->| ->]; rewrite ?H1, lookup_remove_eq; reflexivity.
-    - destruct Hr as [H1 H2]. subst lgo. rewrite H1. rewrite lookup_remove_eq. reflexivity. }
-  split; [|split; [|split]].
-  - split; [exact Hcu|]. unfold fresh, w2. rewrite lastword_send, url_eqb_refl. exact Hcu.
-  - intros v e He. change (s_docs w2) with (installed w u t lgo) in He.
-    unfold installed in He.
-    destruct (url_eq_dec v u) as [->|Hv].
-    + destruct (lookup u (s_docs w)) as [e0|] eqn:Ee.
-      * rewrite lookup_upsert_eq in He. inversion He; subst e. destruct (Hd u e0 Ee) as (A & B & C).
-        destruct (dictv_eqb (e_dict e0) (cur_dict w u)); cbn; repeat split; solve [discriminate|exact B|exact C].
-      * destruct lgo as [lg|]; [destruct (kind lg)|]; rewrite ?lookup_upsert_eq, ?lookup_remove_eq in He; try discriminate;
-          inversion He; subst e; cbn; repeat split; discriminate.
-    + apply url_eqb_neq in Hv.
-      destruct (lookup u (s_docs w)) as [e0|]; [rewrite lookup_upsert_neq in He by exact Hv; exact (Hd v e He)|].
-      destruct lgo as [lg|]; [destruct (kind lg)|]; rewrite ?lookup_upsert_neq, ?lookup_remove_neq in He by exact Hv; exact (Hd v e He).
-  - intros v Hv. split; [exact (Hlk v Hv)|]. split; [exact (Hpv v Hv)|].
-    unfold w2. rewrite lastword_send. apply url_eqb_neq in Hv. rewrite Hv. reflexivity.
-  - exact Hexp.
+  intros w w' u A B C D. unfold want_entry, good_entry, cur_dict, fdict_of. rewrite A, B, C, D. reflexivity.
 Qed.
 
-Lemma install_inv : forall w u t lgo,
-  s_lock w = false -> s_cfg w = w_ccfg w -> others_ok w u -> docs_ok w -> texts_ok w -> ready w u t lgo ->
-  let w1 := set_docs (installed w u t lgo) (set_scfg (w_ccfg w) w) in
+Lemma expected_same : forall w w' u,
+  w_open w' = w_open w -> w_udict w' = w_udict w -> w_fdict w' = w_fdict w -> w_ccfg w' = w_ccfg w ->
+  expected w' u = expected w u.
+Proof. intros w w' u A B C D. unfold expected, fdict_of. rewrite A, B, C, D. reflexivity. Qed.
+
+Lemma lookup_installed_neq : forall w u t lgo nv v, v <> u -> lookup v (installed w u t lgo nv) = lookup v (s_docs w).
+Proof.
+  intros w u t lgo nv v Hv. apply url_eqb_neq in Hv. unfold installed.
+  destruct (upd_entry w u t lgo nv); [apply lookup_upsert_neq|apply lookup_remove_neq]; exact Hv.
+Qed.
+
+Lemma lookup_installed_eq : forall w u t lgo nv, lookup u (installed w u t lgo nv) = upd_entry w u t lgo nv.
+Proof.
+  intros. unfold installed. destruct (upd_entry w u t lgo nv); [apply lookup_upsert_eq|apply lookup_remove_eq].
+Qed.
+
+Lemma install_inv : forall w u t lgo nv,
+  s_lock w = false -> s_cfg w = w_ccfg w -> others_ok w u -> upd_entry w u t lgo nv = want_entry w u ->
+  let w1 := set_docs (installed w u t lgo nv) (set_scfg (w_ccfg w) w) in
   Inv (send u (pubval w1 u) w1).
 Proof.
-  intros w u t lgo Hl Hc Ho Hd Ht Hr w1.
-  destruct (install_spec w u t lgo Hl Hc Hd Ht Hr) as ((Cu & Fu) & Hd2 & Hfr & Hexp).
-  fold w1 in Cu, Fu, Hd2, Hfr, Hexp.
+  intros w u t lgo nv Hl Hc Ho Hr w1.
+  assert (Cu : coh w1 u).
+  { unfold coh. change (s_docs w1) with (installed w u t lgo nv). rewrite lookup_installed_eq, Hr. reflexivity. }
+  assert (Pu : pubval w1 u = expected w1 u) by (apply coh_pubval; [reflexivity|exact Cu]).
   constructor.
   - exact Hl.
   - reflexivity.
   - intro v. destruct (url_eq_dec v u) as [->|Hv]; [exact Cu|].
-    unfold coh. destruct (Hfr v Hv) as (_ & P & _). rewrite P, Hexp. apply Ho, Hv.
-  - intro v. destruct (url_eq_dec v u) as [->|Hv]; [exact Fu|].
-    unfold fresh. destruct (Hfr v Hv) as (_ & _ & L). rewrite L, Hexp. apply Ho, Hv.
-  - exact Hd2.
-  - exact Ht.
+    unfold coh. change (lookup v (installed w u t lgo nv) = want_entry w v). rewrite lookup_installed_neq by exact Hv. apply Ho, Hv.
+  - intro v. unfold fresh. rewrite lastword_send.
+    destruct (url_eqb v u) eqn:E; [apply url_eqb_eq in E; subst v; exact Pu|].
+    apply url_eqb_neq in E. apply Ho, E.
 Qed.
 
 Lemma upd_pub_run : forall f rest l w w' t,
-  s_lock w = false -> l_text l = Some t -> entry_cond w (l_url l) t (l_lang l) ->
+  s_lock w = false -> l_text l = Some t ->
   run_prog f (update_seq ++ IPublish :: rest) l w = Some w' ->
-  let w1 := set_docs (installed w (l_url l) t (l_lang l)) (set_scfg (w_ccfg w) w) in
+  let w1 := set_docs (installed w (l_url l) t (l_lang l) (l_ver l)) (set_scfg (w_ccfg w) w) in
   exists f' l', run_prog f' rest l' (send (l_url l) (pubval w1 (l_url l)) w1) = Some w' /\
                 l_url l' = l_url l /\ l_queue l' = l_queue l.
 Proof.
-  intros f rest l w w' t Hl Ht EC H w1.
-  destruct (update_run _ _ _ _ _ _ Hl Ht EC H) as (f1 & l1 & H1 & Hu & Hq).
+  intros f rest l w w' t Hl Ht H w1.
+  destruct (update_run _ _ _ _ _ _ Hl Ht H) as (f1 & l1 & H1 & Hu & Hq).
   fuel_step H1. cbn [exec] in H1. fold w1 in H1.
   change (s_lock w1) with (s_lock w) in H1. rewrite Hl in H1. cbn [app] in H1. rewrite Hu in H1.
   exists f1, l1. split; [exact H1|]. split; assumption.
@@ -214,11 +214,84 @@ Proof.
   intros w u I. constructor.
   - exact (inv_lock w I).
   - exact (inv_cfg w I).
-  - intro v. exact (inv_coh w I v).
-  - intro v. unfold fresh. rewrite lastword_send, expected_send.
-    destruct (url_eqb v u) eqn:E; [apply url_eqb_eq in E; subst; exact (inv_coh w I u)|exact (inv_fresh w I v)].
-  - exact (inv_docs w I).
-  - exact (inv_text w I).
+  - intro v. change (coh w v). exact (inv_coh w I v).
+  - intro v. unfold fresh. rewrite lastword_send. change (expected (send u (pubval w u) w) v) with (expected w v).
+    destruct (url_eqb v u) eqn:E; [apply url_eqb_eq in E; subst; apply coh_pubval; [exact (inv_cfg w I)|exact (inv_coh w I u)]|exact (inv_fresh w I v)].
+Qed.
+
+(* ---------- the entry an update leaves, from the entry it finds ---------- *)
+(* An entry of the shape every handler leaves behind (dictionary = base + identifiers, the linter
+   configuration current unless the dictionary files changed since), updated with text t and version nv
+   that is not older than the entry's: the result is the up-to-date entry. *)
+Lemma upd_entry_spec : forall w u t lgo nv lg B i0 cl t0 p ign dd v0,
+  lookup u (s_docs w) = Some (mkentry (Some lg) (with_ident B i0) i0 cl t0 p ign B dd (Some v0)) ->
+  kind lg <> KNone -> (kind lg <> KCode -> i0 = 0) -> (B = cur_dict w u -> cl = w_ccfg w) ->
+  stale nv (Some v0) = false ->
+  upd_entry w u t lgo nv =
+    Some (mkentry (Some lg) (with_ident (cur_dict w u) (idof lg t)) (idof lg t) (w_ccfg w) (Some t) (w_ccfg w) ign
+                  (cur_dict w u) (with_ident (cur_dict w u) (idof lg t)) (match nv with Some n => Some n | None => Some v0 end)).
+Proof.
+  intros w u t lgo nv lg B i0 cl t0 p ign dd v0 He Hk Hi Hc Hst. unfold upd_entry. rewrite He. unfold rebase. cbn [e_base].
+  destruct (dictv_eqb B (cur_dict w u)) eqn:Ed.
+  - apply dictv_eqb_eq in Ed. subst B. rewrite (Hc eq_refl). cbn [e_ver]. rewrite Hst.
+    unfold idof. destruct nv as [n|]; cbn [bump e_set_ver e_lang e_ident];
+      (destruct (kind lg) eqn:Ek; [|destruct (i0 =? t_ident t) eqn:Ei; [apply Nat.eqb_eq in Ei|]|congruence]);
+      try (rewrite (Hi ltac:(congruence))); try subst i0; reflexivity.
+  - cbn [e_rebase e_ver]. rewrite Hst.
+    unfold idof. destruct nv as [n|]; cbn [bump e_set_ver e_rebase e_lang e_ident];
+      (destruct (kind lg) eqn:Ek; [|destruct (0 =? t_ident t) eqn:Ei; [apply Nat.eqb_eq in Ei; rewrite <- Ei|]|congruence]);
+      reflexivity.
+Qed.
+
+(* the same for a document doc_state does not hold *)
+Lemma upd_entry_new : forall w u t lg v,
+  lookup u (s_docs w) = None ->
+  upd_entry w u t (Some lg) (Some v) =
+    match kind lg with
+    | KNone => None
+    | _ => Some (mkentry (Some lg) (with_ident (cur_dict w u) (idof lg t)) (idof lg t) (w_ccfg w) (Some t) (w_ccfg w) []
+                         (cur_dict w u) (with_ident (cur_dict w u) (idof lg t)) (Some v))
+    end.
+Proof.
+  intros w u t lg v He. unfold upd_entry. rewrite He. unfold rebase. cbn [new_entry e_base]. rewrite dictv_eqb_refl.
+  cbn [e_ver stale bump e_set_ver e_lang e_ident new_entry]. unfold idof.
+  destruct (kind lg) eqn:Ek; [reflexivity| |reflexivity].
+  destruct (0 =? t_ident t) eqn:Ei; [apply Nat.eqb_eq in Ei; rewrite <- Ei|]; reflexivity.
+Qed.
+
+Lemma upd_entry_absent : forall w u t nv, lookup u (s_docs w) = None -> upd_entry w u t None nv = None.
+Proof.
+  intros w u t nv He. unfold upd_entry. rewrite He. unfold rebase. cbn [new_entry e_base]. rewrite dictv_eqb_refl.
+  cbn [e_ver]. destruct nv; reflexivity.
+Qed.
+
+Lemma upd_entry_same : forall w w' u t lgo nv,
+  lookup u (s_docs w') = lookup u (s_docs w) -> w_ccfg w' = w_ccfg w -> w_udict w' = w_udict w -> w_fdict w' = w_fdict w ->
+  upd_entry w' u t lgo nv = upd_entry w u t lgo nv.
+Proof. intros w w' u t lgo nv A B C D. unfold upd_entry, cur_dict, fdict_of. rewrite A, B, C, D. reflexivity. Qed.
+
+(* a re-read of u that finds the client's text in the file (or a document without parser, or a closed one)
+   re-installs the up-to-date entry, also when the dictionary files have changed in between *)
+Lemma reread_upd : forall w wd u t, coh w u ->
+  w_open wd = w_open w -> s_docs wd = s_docs w -> w_ccfg wd = w_ccfg w ->
+  match lookup u (w_open w) with Some cd => kind (cd_lang cd) = KNone \/ cd_text cd = t | None => True end ->
+  upd_entry wd u t None None = want_entry wd u.
+Proof.
+  intros w wd u t C Eo Ed Ec Hx.
+  destruct (lookup u (s_docs w)) as [e|] eqn:Ee.
+  - destruct (coh_entry w u e C Ee) as (cd & Ho & Hk & ->). rewrite Ho in Hx. destruct Hx as [Hx|Hx]; [congruence|].
+    unfold want_entry. rewrite Eo, Ho. subst t.
+    rewrite (upd_entry_spec wd u (cd_text cd) None None (cd_lang cd) (cur_dict w u) (idof (cd_lang cd) (cd_text cd)) (w_ccfg w)
+               (Some (cd_text cd)) (w_ccfg w) (cd_ign cd) (with_ident (cur_dict w u) (idof (cd_lang cd) (cd_text cd))) (cd_ver cd)).
+    + unfold good_entry. rewrite Ec. destruct (kind (cd_lang cd)); [reflexivity|reflexivity|congruence].
+    + rewrite Ed, Ee. reflexivity.
+    + exact Hk.
+    + apply idof_plain.
+    + intros _. symmetry. exact Ec.
+    + reflexivity.
+  - rewrite upd_entry_absent by (rewrite Ed; exact Ee).
+    pose proof (coh_no_entry w u C Ee) as N. unfold want_entry. rewrite Eo.
+    destruct (lookup u (w_open w)) as [cd|]; [rewrite N|]; reflexivity.
 Qed.
 
 (* ---------- the side conditions of the sequential theorem ---------- *)
@@ -237,10 +310,12 @@ Definition reread_ok (w : world) (u : url) : bool :=
 Definition others_closed (w : world) (u : url) : bool :=
   forallb (fun kv => url_eqb (fst kv) u || match kind (cd_lang (snd kv)) with KNone => true | _ => false end) (w_open w).
 
+(* didOpen of a document that is not open; didChange of an open document with a version that is not
+   older than the previous one (an older one is ignored by the server) *)
 Definition op_safeb (w : world) (o : op) : bool :=
   match o with
-  | Open u l t => match lookup u (w_open w) with None => text_ok l t | Some _ => false end
-  | Change u t => match lookup u (w_open w) with Some cd => text_ok (cd_lang cd) t | None => false end
+  | Open u l t v => match lookup u (w_open w) with None => true | Some _ => false end
+  | Change u t v => match lookup u (w_open w) with Some cd => cd_ver cd <=? v | None => false end
   | Save _ | Close _ | Delete _ | Ignore _ _ | RecordLint => true
   | AddUser x u => reread_ok w u && (existsb (Nat.eqb x) (w_udict w) || others_closed w u)
   | AddFile x u => reread_ok w u || negb (is_file u)
@@ -261,114 +336,90 @@ Proof.
   - destruct (IH v H) as (k' & Hin & Ek). exists k'. split; [right; exact Hin|exact Ek].
 Qed.
 
-(* Inv, restated with the pieces install_inv wants *)
 Lemma inv_others : forall w u, Inv w -> others_ok w u.
 Proof. intros w u I v _. split; [exact (inv_coh w I v)|exact (inv_fresh w I v)]. Qed.
 
-(* ---------- didOpen ---------- *)
-Lemma inv_open : forall w u l t w', Inv w -> op_safeb w (Open u l t) = true ->
-  run_op (Open u l t) w = Some w' -> Inv w'.
+(* the client's buffers change at u only: the other documents are as before *)
+Lemma others_ok_open : forall w u m, Inv w -> (forall v, v <> u -> lookup v m = lookup v (w_open w)) ->
+  others_ok (set_open m w) u.
 Proof.
-  intros w u l t w' I Hs H. unfold run_op in H. cbn [prog locals_of] in H.
-  cbn [op_safeb] in Hs. destruct (lookup u (w_open w)) as [cd0|] eqn:Eo; [discriminate|].
-  set (w0 := client_effect (Open u l t) w) in *.
-  assert (Hno : lookup u (s_docs w) = None).
-  { destruct (lookup u (s_docs w)) as [e|] eqn:Ee; [|reflexivity].
-    destruct (entry_facts w u e I Ee) as (cd & Hc & _). congruence. }
-  assert (Hl : s_lock w0 = false) by exact (inv_lock w I).
-  assert (EC : entry_cond w0 u t (Some l)).
-  { unfold entry_cond. change (s_docs w0) with (s_docs w). rewrite Hno. intros lg E Hk. inversion E; subst lg.
-    unfold text_ok in Hs. rewrite Hk in Hs. apply Nat.eqb_eq, Hs. }
-  destruct (upd_pub_run _ [] (lset_lang (Some l) (lset_text (Some t) (loc0 u))) w0 w' t Hl eq_refl EC H) as (f' & l' & H1 & _ & _).
-  cbn [l_url lset_lang lset_text loc0 l_lang] in H1.
-  assert (Hw' : send u (pubval (set_docs (installed w0 u t (Some l)) (set_scfg (w_ccfg w0) w0)) u) (set_docs (installed w0 u t (Some l)) (set_scfg (w_ccfg w0) w0)) = w')
-    by (destruct f'; cbn [run_prog] in H1; inversion H1; reflexivity).
-  subst w'. apply (install_inv w0 u t (Some l)).
-  - exact Hl.
-  - exact (inv_cfg w I).
-  - intros v Hv. apply url_eqb_neq in Hv. destruct (inv_others w u I v) as [C F]; [apply url_eqb_neq, Hv|].
-    unfold coh, fresh, pubval, expected, lastword in *. unfold w0. cbn [client_effect w_open set_open s_docs s_log s_cfg w_udict w_ccfg].
-    unfold fdict_of in *. cbn [w_fdict set_open]. rewrite lookup_upsert_neq by exact Hv. split; assumption.
-  - exact (inv_docs w I).
-  - intros v cd Hv. unfold w0 in Hv. cbn [client_effect w_open set_open] in Hv. rewrite lookup_upsert in Hv.
-    destruct (url_eqb v u); [inversion Hv; subst cd; exact Hs|exact (inv_text w I v cd Hv)].
-  - unfold ready. unfold w0. cbn [client_effect w_open set_open s_docs]. rewrite lookup_upsert_eq, Hno. cbn.
-    left. repeat split.
+  intros w u m I Hm v Hv. pose proof (inv_coh w I v) as C. pose proof (inv_fresh w I v) as F.
+  unfold coh, want_entry, fresh, expected, lastword, good_entry, cur_dict, fdict_of in *.
+  cbn [w_open set_open s_docs s_log s_cfg w_udict w_ccfg w_fdict]. rewrite (Hm v Hv). split; assumption.
 Qed.
 
 Lemma run_nil : forall f l w w', run_prog f [] l w = Some w' -> w' = w.
 Proof. intros. destruct f; cbn in H; inversion H; reflexivity. Qed.
 
-Lemma others_ok_upsert_open : forall w u cd, Inv w -> others_ok (set_open (upsert u cd (w_open w)) w) u.
+(* ---------- didOpen ---------- *)
+Lemma inv_open : forall w u l t v w', Inv w -> op_safeb w (Open u l t v) = true ->
+  run_op (Open u l t v) w = Some w' -> Inv w'.
 Proof.
-  intros w u cd I v Hv. apply url_eqb_neq in Hv. pose proof (inv_coh w I v) as C. pose proof (inv_fresh w I v) as F.
-  unfold coh, fresh, pubval, expected, lastword, fdict_of in *. cbn [w_open set_open s_docs s_log s_cfg w_udict w_ccfg w_fdict].
-  rewrite lookup_upsert_neq by exact Hv. split; assumption.
-Qed.
-
-Lemma others_ok_remove_open : forall w u, Inv w -> others_ok (set_open (remove u (w_open w)) w) u.
-Proof.
-  intros w u I v Hv. apply url_eqb_neq in Hv. pose proof (inv_coh w I v) as C. pose proof (inv_fresh w I v) as F.
-  unfold coh, fresh, pubval, expected, lastword, fdict_of in *. cbn [w_open set_open s_docs s_log s_cfg w_udict w_ccfg w_fdict].
-  rewrite lookup_remove_neq by exact Hv. split; assumption.
-Qed.
-
-Lemma texts_ok_upsert_open : forall w u cd, Inv w -> text_ok (cd_lang cd) (cd_text cd) = true ->
-  texts_ok (set_open (upsert u cd (w_open w)) w).
-Proof.
-  intros w u cd I Hk v cd' Hv. cbn [w_open set_open] in Hv. rewrite lookup_upsert in Hv.
-  destruct (url_eqb v u); [inversion Hv; subst cd'; exact Hk|exact (inv_text w I v cd' Hv)].
+  intros w u l t v w' I Hs H. unfold run_op in H. cbn [prog locals_of] in H.
+  cbn [op_safeb] in Hs. destruct (lookup u (w_open w)) as [cd0|] eqn:Eo; [discriminate|].
+  set (w0 := client_effect (Open u l t v) w) in *.
+  assert (Hno : lookup u (s_docs w) = None).
+  { pose proof (inv_coh w I u) as C. unfold coh, want_entry in C. rewrite Eo in C. exact C. }
+  assert (Hl : s_lock w0 = false) by exact (inv_lock w I).
+  destruct (upd_pub_run _ [] (lset_ver (Some v) (lset_lang (Some l) (lset_text (Some t) (loc0 u)))) w0 w' t Hl eq_refl H) as (f' & l' & H1 & _ & _).
+  cbn [l_url lset_ver lset_lang lset_text loc0 l_lang l_ver] in H1. apply run_nil in H1. subst w'.
+  apply (install_inv w0 u t (Some l) (Some v)).
+  - exact Hl.
+  - exact (inv_cfg w I).
+  - unfold w0. cbn [client_effect]. apply others_ok_open; [exact I|].
+    intros x Hx. apply url_eqb_neq in Hx. apply lookup_upsert_neq, Hx.
+  - rewrite upd_entry_new by exact Hno. unfold want_entry, w0. cbn [client_effect w_open set_open].
+    rewrite lookup_upsert_eq. cbn [cd_lang]. destruct (kind l); reflexivity.
 Qed.
 
 (* ---------- didChange ---------- *)
-Lemma inv_change : forall w u t w', Inv w -> op_safeb w (Change u t) = true ->
-  run_op (Change u t) w = Some w' -> Inv w'.
+Lemma inv_change : forall w u t v w', Inv w -> op_safeb w (Change u t v) = true ->
+  run_op (Change u t v) w = Some w' -> Inv w'.
 Proof.
-  intros w u t w' I Hs H. unfold run_op in H. cbn [prog locals_of] in H.
+  intros w u t v w' I Hs H. unfold run_op in H. cbn [prog locals_of] in H.
   cbn [op_safeb] in Hs. destruct (lookup u (w_open w)) as [cd|] eqn:Eo; [|discriminate].
-  assert (Ew0 : client_effect (Change u t) w = set_open (upsert u (mkcdoc (cd_lang cd) t (cd_ign cd)) (w_open w)) w)
+  assert (Ew0 : client_effect (Change u t v) w = set_open (upsert u (mkcdoc (cd_lang cd) t (cd_ign cd) v) (w_open w)) w)
     by (cbn [client_effect]; rewrite Eo; reflexivity).
   rewrite Ew0 in H. set (w0 := set_open _ w) in *.
   assert (Hl : s_lock w0 = false) by exact (inv_lock w I).
-  assert (EC : entry_cond w0 u t None).
-  { unfold entry_cond. change (s_docs w0) with (s_docs w).
-    destruct (lookup u (s_docs w)) as [e|] eqn:Ee; [|intros lg E; discriminate].
-    destruct (entry_facts w u e I Ee) as (cd' & Hc & H1 & H2 & H3 & H4 & H5 & H6 & H7 & H8).
-    rewrite Eo in Hc. inversion Hc; subst cd'. exists (cd_lang cd). repeat split; try assumption.
-    intro Hk. unfold text_ok in Hs. rewrite Hk in Hs. apply Nat.eqb_eq in Hs. congruence. }
-  destruct (upd_pub_run _ [] (lset_text (Some t) (loc0 u)) w0 w' t Hl eq_refl EC H) as (f' & l' & H1 & _ & _).
-  cbn [l_url lset_lang lset_text loc0 l_lang] in H1. apply run_nil in H1. subst w'.
-  apply (install_inv w0 u t None).
+  destruct (upd_pub_run _ [] (lset_ver (Some v) (lset_text (Some t) (loc0 u))) w0 w' t Hl eq_refl H) as (f' & l' & H1 & _ & _).
+  cbn [l_url lset_ver lset_lang lset_text loc0 l_lang l_ver] in H1. apply run_nil in H1. subst w'.
+  apply (install_inv w0 u t None (Some v)).
   - exact Hl.
   - exact (inv_cfg w I).
-  - apply others_ok_upsert_open, I.
-  - exact (inv_docs w I).
-  - apply texts_ok_upsert_open; [exact I|exact Hs].
-  - unfold ready. unfold w0. cbn [w_open set_open s_docs]. rewrite lookup_upsert_eq. cbn [cd_text cd_lang cd_ign].
+  - apply others_ok_open; [exact I|]. intros x Hx. apply url_eqb_neq in Hx. apply lookup_upsert_neq, Hx.
+  - unfold want_entry. unfold w0 at 2. cbn [w_open set_open]. rewrite lookup_upsert_eq. cbn [cd_lang].
     destruct (lookup u (s_docs w)) as [e|] eqn:Ee.
-    + destruct (entry_facts w u e I Ee) as (cd' & Hc & H1 & H2 & H3 & H4 & H5 & H6 & H7 & H8).
-      rewrite Eo in Hc. inversion Hc; subst cd'. repeat split; try assumption. intros _. exact H5.
-    + right. pose proof (no_entry_facts w u I Ee) as N. rewrite Eo in N. split; [exact N|left; reflexivity].
+    + destruct (coh_entry w u e (inv_coh w I u) Ee) as (cd' & Ho & Hk & ->). rewrite Eo in Ho. inversion Ho; subst cd'.
+      rewrite (upd_entry_spec w0 u t None (Some v) (cd_lang cd) (cur_dict w u) (idof (cd_lang cd) (cd_text cd)) (w_ccfg w)
+                 (Some (cd_text cd)) (w_ccfg w) (cd_ign cd) (with_ident (cur_dict w u) (idof (cd_lang cd) (cd_text cd))) (cd_ver cd)).
+      * destruct (kind (cd_lang cd)); [reflexivity|reflexivity|congruence].
+      * exact Ee.
+      * exact Hk.
+      * apply idof_plain.
+      * reflexivity.
+      * cbn [stale]. apply Nat.ltb_ge. apply Nat.leb_le, Hs.
+    + rewrite upd_entry_absent by exact Ee.
+      pose proof (coh_no_entry w u (inv_coh w I u) Ee) as N. rewrite Eo in N. rewrite N. reflexivity.
 Qed.
 
 (* ---------- handlers that re-read the document from disk ---------- *)
-Definition pre (w : world) (u : url) : Prop :=
-  s_lock w = false /\ s_cfg w = w_ccfg w /\ others_ok w u /\ docs_ok w /\ texts_ok w.
+Definition pre (w : world) (u : url) : Prop := s_lock w = false /\ s_cfg w = w_ccfg w /\ others_ok w u.
 
 Definition reread_ready (w : world) (u : url) : Prop :=
   if is_file u then
     match lookup u (w_disk w) with
-    | Some t => ready w u t None /\ entry_cond w u t None
+    | Some t => upd_entry w u t None None = want_entry w u
     | None => coh w u
     end
   else coh w u.
 
 Lemma pre_coh_inv : forall w u, pre w u -> coh w u -> Inv (send u (pubval w u) w).
 Proof.
-  intros w u (Hl & Hc & Ho & Hd & Ht) C. constructor; try assumption.
-  - intro v. destruct (url_eq_dec v u) as [->|Hv]; [exact C|apply Ho, Hv].
-  - intro v. unfold fresh. rewrite lastword_send, expected_send.
-    destruct (url_eqb v u) eqn:E; [apply url_eqb_eq in E; subst; exact C|apply url_eqb_neq in E; apply Ho, E].
+  intros w u (Hl & Hc & Ho) C. constructor; try assumption.
+  - intro v. change (coh w v). destruct (url_eq_dec v u) as [->|Hv]; [exact C|apply Ho, Hv].
+  - intro v. unfold fresh. rewrite lastword_send. change (expected (send u (pubval w u) w) v) with (expected w v).
+    destruct (url_eqb v u) eqn:E; [apply url_eqb_eq in E; subst; apply coh_pubval; assumption|apply url_eqb_neq in E; apply Ho, E].
 Qed.
 
 Lemma reread_run : forall f rest l w w' u,
@@ -376,52 +427,28 @@ Lemma reread_run : forall f rest l w w' u,
   l_url l = u -> pre w u -> reread_ready w u ->
   exists f' l' w1, run_prog f' rest l' w1 = Some w' /\ Inv w1 /\ l_queue l' = l_queue l.
 Proof.
-  intros f rest l w w' u H Hu P R. destruct P as (Hl & Hc & Ho & Hd & Ht).
+  intros f rest l w w' u H Hu P R. destruct P as (Hl & Hc & Ho).
   fuel_step H. cbn [exec] in H. rewrite Hu in H. unfold reread_ready in R.
   destruct (is_file u) eqn:Ef.
   - destruct (lookup u (w_disk w)) as [t|] eqn:Ed.
-    + destruct R as [R EC].
-      change (update_seq ++ IPublish :: rest) with (update_seq ++ IPublish :: rest) in H.
-      set (l1 := lset_lang None (lset_text (Some t) l)) in *.
+    + set (l1 := lset_ver None (lset_lang None (lset_text (Some t) l))) in *.
       assert (Hu1 : l_url l1 = u) by exact Hu.
-      assert (EC1 : entry_cond w (l_url l1) t (l_lang l1)) by (rewrite Hu1; exact EC).
-      destruct (upd_pub_run _ rest l1 w w' t Hl eq_refl EC1 H) as (f' & l' & H1 & _ & Hq).
-      rewrite Hu1 in H1. cbn [l_lang l1 lset_lang] in H1.
-      exists f', l', (send u (pubval (set_docs (installed w u t None) (set_scfg (w_ccfg w) w)) u) (set_docs (installed w u t None) (set_scfg (w_ccfg w) w))).
+      destruct (upd_pub_run _ rest l1 w w' t Hl eq_refl H) as (f' & l' & H1 & _ & Hq).
+      rewrite Hu1 in H1. cbn [l_lang l_ver l1 lset_lang lset_ver] in H1.
+      exists f', l', (send u (pubval (set_docs (installed w u t None None) (set_scfg (w_ccfg w) w)) u) (set_docs (installed w u t None None) (set_scfg (w_ccfg w) w))).
       split; [exact H1|]. split; [apply install_inv; assumption|exact Hq].
     + cbn [app] in H. fuel_step H. cbn [exec] in H. rewrite Hl, Hu in H. cbn [app] in H.
-      exists f, l, (send u (pubval w u) w). split; [exact H|]. split; [apply pre_coh_inv; [exact (conj Hl (conj Hc (conj Ho (conj Hd Ht))))|exact R]|reflexivity].
+      exists f, l, (send u (pubval w u) w). split; [exact H|]. split; [apply pre_coh_inv; [exact (conj Hl (conj Hc Ho))|exact R]|reflexivity].
   - cbn [app] in H. fuel_step H. cbn [exec] in H. rewrite Hl, Hu in H. cbn [app] in H.
-    exists f, l, (send u (pubval w u) w). split; [exact H|]. split; [apply pre_coh_inv; [exact (conj Hl (conj Hc (conj Ho (conj Hd Ht))))|exact R]|reflexivity].
-Qed.
-
-(* ready/entry_cond for a re-read, from the invariant of a world that differs at most in files *)
-Lemma inv_ready_gen : forall w wd u t, Inv w ->
-  w_open wd = w_open w -> s_docs wd = s_docs w -> w_ccfg wd = w_ccfg w ->
-  match lookup u (w_open w) with Some cd => kind (cd_lang cd) = KNone \/ cd_text cd = t | None => True end ->
-  ready wd u t None /\ entry_cond wd u t None.
-Proof.
-  intros w wd u t I Eo Ed Ec Hx. unfold ready, entry_cond. rewrite Eo, Ed, Ec.
-  destruct (lookup u (s_docs w)) as [e|] eqn:Ee.
-  - destruct (entry_facts w u e I Ee) as (cd & Hc & H1 & H2 & H3 & H4 & H5 & H6 & H7 & H8).
-    rewrite Hc in *. destruct Hx as [Hx|Hx]; [congruence|].
-    split; [repeat split; try assumption; intros _; exact H5|].
-    exists (cd_lang cd). repeat split; try assumption.
-    intro Hk. pose proof (inv_text w I u cd Hc) as Tk. unfold text_ok in Tk. rewrite Hk in Tk.
-    apply Nat.eqb_eq in Tk. congruence.
-  - pose proof (no_entry_facts w u I Ee) as N. destruct (lookup u (w_open w)) as [cd|].
-    + split; [right; split; [exact N|left; reflexivity]|intros lg E; discriminate].
-    + split; [split; reflexivity|intros lg E; discriminate].
+    exists f, l, (send u (pubval w u) w). split; [exact H|]. split; [apply pre_coh_inv; [exact (conj Hl (conj Hc Ho))|exact R]|reflexivity].
 Qed.
 
 Lemma inv_pre : forall w u, Inv w -> pre w u.
-Proof.
-  intros w u I. exact (conj (inv_lock w I) (conj (inv_cfg w I) (conj (inv_others w u I) (conj (inv_docs w I) (inv_text w I))))).
-Qed.
+Proof. intros w u I. exact (conj (inv_lock w I) (conj (inv_cfg w I) (inv_others w u I))). Qed.
 
 (* Inv does not mention the documents on disk *)
 Lemma inv_set_disk : forall w d, Inv w -> Inv (set_disk d w).
-Proof. intros w d I. constructor; [exact (inv_lock w I)|exact (inv_cfg w I)|exact (inv_coh w I)|exact (inv_fresh w I)|exact (inv_docs w I)|exact (inv_text w I)]. Qed.
+Proof. intros w d I. constructor; [exact (inv_lock w I)|exact (inv_cfg w I)|exact (inv_coh w I)|exact (inv_fresh w I)]. Qed.
 
 (* ---------- didSave ---------- *)
 Lemma inv_save : forall w u w', Inv w -> run_op (Save u) w = Some w' -> Inv w'.
@@ -433,7 +460,7 @@ Proof.
   assert (R : reread_ready w0 u).
   { unfold reread_ready. destruct (is_file u) eqn:Ef; [|exact (inv_coh w0 I0 u)].
     destruct (lookup u (w_disk w0)) as [t|] eqn:Ed; [|exact (inv_coh w0 I0 u)].
-    apply (inv_ready_gen w0 w0 u t I0); try reflexivity.
+    apply (reread_upd w0 w0 u t (inv_coh w0 I0 u)); try reflexivity.
     destruct (lookup u (w_open w0)) as [cd|] eqn:Eo; [|exact Logic.I]. right.
     unfold w0 in Ed, Eo. cbn [client_effect] in Ed, Eo. destruct (lookup u (w_open w)) as [cd'|] eqn:Eo'.
     - rewrite Ef in Ed, Eo. cbn [w_open set_disk w_disk] in Ed, Eo. rewrite lookup_upsert_eq in Ed. congruence.
@@ -451,18 +478,14 @@ Proof.
   constructor.
   - reflexivity.
   - exact (inv_cfg w I).
-  - intro v. pose proof (inv_coh w I v) as C. unfold coh, pubval, expected, fdict_of in *.
+  - intro v. pose proof (inv_coh w I v) as C. unfold coh, want_entry, good_entry, cur_dict, fdict_of in *.
     cbn [s_docs set_lock send set_log set_docs set_open w_open s_cfg w_udict w_fdict w_ccfg].
     rewrite !lookup_remove. destruct (url_eqb v u); [reflexivity|exact C].
-  - intro v. pose proof (inv_fresh w I v) as F. unfold fresh in *. 
+  - intro v. pose proof (inv_fresh w I v) as F. unfold fresh in *.
     change (lastword (set_lock false (set_lock true (send u PEmpty (set_docs (remove u (s_docs (set_open (remove u (w_open w)) w))) (set_open (remove u (w_open w)) w))))) v)
       with (lastword (send u PEmpty w) v).
     rewrite lastword_send. unfold expected, fdict_of in *. cbn [set_lock send set_log set_docs set_open w_open w_udict w_fdict w_ccfg].
     rewrite lookup_remove. destruct (url_eqb v u); [reflexivity|exact F].
-  - intros v e He. cbn [s_docs set_lock send set_log set_docs set_open] in He. rewrite lookup_remove in He.
-    destruct (url_eqb v u); [discriminate|exact (inv_docs w I v e He)].
-  - intros v cd Hv. cbn [set_lock send set_log set_docs set_open w_open] in Hv. rewrite lookup_remove in Hv.
-    destruct (url_eqb v u); [discriminate|exact (inv_text w I v cd Hv)].
 Qed.
 
 (* ---------- HarperRecordLint ---------- *)
@@ -481,48 +504,35 @@ Proof.
   assert (Hl0 : s_lock w0 = false) by (unfold w0; cbn [client_effect]; destruct (lookup u (w_open w)); exact (inv_lock w I)).
   open_fuel H. fuel_step H. cbn [exec] in H. rewrite Hl0, Hd0 in H. cbn [loc0 l_url] in H.
   destruct (lookup u (s_docs w)) as [e|] eqn:Ee.
-  - destruct (entry_facts w u e I Ee) as (cd & Hc & H1 & H2 & H3 & H4 & H5 & H6 & H7 & H8).
+  - destruct (coh_entry w u e (inv_coh w I u) Ee) as (cd & Hc & Hk & ->).
     cbn [app] in H. fuel_step H. cbn [exec] in H. cbn [s_lock set_docs] in H. rewrite Hl0 in H. cbn [app l_url loc0] in H.
     apply run_nil in H. subst w'.
-    assert (Ew0 : w0 = set_open (upsert u (mkcdoc (cd_lang cd) (cd_text cd) (ins k (cd_ign cd))) (w_open w)) w)
+    assert (Ew0 : w0 = set_open (upsert u (mkcdoc (cd_lang cd) (cd_text cd) (ins k (cd_ign cd)) (cd_ver cd)) (w_open w)) w)
       by (unfold w0; cbn [client_effect]; rewrite Hc; reflexivity).
     rewrite Ew0.
     set (w1 := set_docs _ _).
-    assert (Cu : pubval w1 u = expected w1 u).
-    { unfold pubval, expected, w1, fdict_of. cbn [s_docs set_docs set_open w_open s_cfg w_udict w_fdict w_ccfg].
-      rewrite !lookup_upsert_eq. cbn. rewrite H1, H3, H4, H5, H6, H7, (inv_cfg w I).
-      unfold cur_dict, fdict_of.
-      pose proof (inv_text w I u cd Hc) as Tk. unfold text_ok in Tk.
-      destruct (kind (cd_lang cd)) eqn:Ek; [reflexivity| |congruence]. apply Nat.eqb_eq in Tk. rewrite Tk. reflexivity. }
-    constructor.
-    + exact (inv_lock w I).
-    + exact (inv_cfg w I).
-    + intro v. destruct (url_eq_dec v u) as [->|Hv]; [exact Cu|]. apply url_eqb_neq in Hv.
-      pose proof (inv_coh w I v) as C. unfold coh, pubval, expected, fdict_of, w1 in *.
-      cbn [send set_log s_docs set_docs set_open w_open s_cfg w_udict w_fdict w_ccfg].
-      rewrite !lookup_upsert_neq by exact Hv. exact C.
-    + intro v. unfold fresh. rewrite lastword_send, expected_send.
-      destruct (url_eqb v u) eqn:E; [apply url_eqb_eq in E; subst; exact Cu|].
-      pose proof (inv_fresh w I v) as F. unfold fresh, expected, fdict_of, w1 in *.
-      cbn [s_docs set_docs set_open w_open s_cfg w_udict w_fdict w_ccfg].
-      rewrite lookup_upsert_neq by exact E. exact F.
-    + intros v e' He. unfold w1 in He. cbn [send set_log s_docs set_docs] in He. rewrite lookup_upsert in He.
-      destruct (url_eqb v u); [inversion He; subst e'; cbn; destruct (inv_docs w I u e Ee) as (A & B & C); repeat split; assumption|exact (inv_docs w I v e' He)].
-    + apply (texts_ok_upsert_open w u _ I). cbn. exact (inv_text w I u cd Hc).
+    assert (Cu : coh w1 u).
+    { unfold coh, want_entry, w1. cbn [s_docs set_docs set_open w_open]. rewrite !lookup_upsert_eq. cbn [cd_lang].
+      destruct (kind (cd_lang cd)); [reflexivity|reflexivity|congruence]. }
+    apply (pre_coh_inv w1 u); [|exact Cu].
+    split; [exact (inv_lock w I)|]. split; [exact (inv_cfg w I)|].
+    intros x Hx. destruct (others_ok_open w u (upsert u (mkcdoc (cd_lang cd) (cd_text cd) (ins k (cd_ign cd)) (cd_ver cd)) (w_open w)) I) with (v := x) as [C F];
+      [intros y Hy; apply url_eqb_neq in Hy; apply lookup_upsert_neq, Hy|exact Hx|].
+    apply url_eqb_neq in Hx. split.
+    + unfold coh in *. unfold w1. cbn [s_docs set_docs]. rewrite lookup_upsert_neq by exact Hx. exact C.
+    + exact F.
   - cbn [app] in H. apply run_nil in H. subst w'.
-    pose proof (no_entry_facts w u I Ee) as N.
+    pose proof (coh_no_entry w u (inv_coh w I u) Ee) as N.
     unfold w0. cbn [client_effect]. destruct (lookup u (w_open w)) as [cd|] eqn:Eo; [|exact I].
     constructor.
     + exact (inv_lock w I).
     + exact (inv_cfg w I).
-    + intro v. pose proof (inv_coh w I v) as C. unfold coh, pubval, expected, fdict_of in *.
+    + intro v. pose proof (inv_coh w I v) as C. unfold coh, want_entry, good_entry, cur_dict, fdict_of in *.
       cbn [s_docs set_open w_open s_cfg w_udict w_fdict w_ccfg]. rewrite lookup_upsert.
       destruct (url_eqb v u) eqn:E; [|exact C]. apply url_eqb_eq in E. subst v. rewrite Ee. cbn. rewrite N. reflexivity.
     + intro v. pose proof (inv_fresh w I v) as F. unfold fresh, lastword, expected, fdict_of in *.
       cbn [s_log set_open w_open s_cfg w_udict w_fdict w_ccfg]. rewrite lookup_upsert.
       destruct (url_eqb v u) eqn:E; [|exact F]. apply url_eqb_eq in E. subst v. rewrite Eo, N in F. cbn. rewrite N. exact F.
-    + exact (inv_docs w I).
-    + apply (texts_ok_upsert_open w u _ I). cbn. exact (inv_text w I u cd Eo).
 Qed.
 
 (* ---------- didChangeWatchedFiles ---------- *)
@@ -580,13 +590,13 @@ Proof.
   set (gone := filter (matches tg) (keys (s_docs w))) in *.
   apply delsend_run in H; [|reflexivity]. destruct H as (f' & l' & H).
   fuel_step H. cbn [exec app] in H. apply run_nil in H. subst w'.
-  rewrite send_all_log. 
+  rewrite send_all_log.
   assert (Hgone : forall v, mem_url v gone = true <-> (matches tg v = true /\ In v (keys (s_docs w)))).
   { intro v. rewrite mem_url_In. unfold gone. rewrite filter_In. tauto. }
   constructor.
   - reflexivity.
   - exact (inv_cfg w I).
-  - intro v. pose proof (inv_coh w I v) as C. unfold coh, pubval, expected, fdict_of in *.
+  - intro v. pose proof (inv_coh w I v) as C. unfold coh, want_entry, good_entry, cur_dict, fdict_of in *.
     cbn [s_docs set_lock set_log set_docs set_open set_disk w_open s_cfg w_udict w_fdict w_ccfg].
     rewrite !lookup_filter_matches. destruct (matches tg v); [reflexivity|exact C].
   - intro v. pose proof (inv_fresh w I v) as F. pose proof (inv_coh w I v) as C. unfold fresh.
@@ -601,12 +611,8 @@ Proof.
       assert (Hn : lookup v (s_docs w) = None).
       { destruct (lookup v (s_docs w)) as [e|] eqn:Ee; [|reflexivity]. apply lookup_In_keys in Ee.
         assert (mem_url v gone = true) by (apply Hgone; split; assumption). congruence. }
-      change (lastword w v = PEmpty). unfold fresh in F. unfold coh in C. rewrite F, <- C. unfold pubval. rewrite Hn. reflexivity.
+      change (lastword w v = PEmpty). unfold fresh in F. rewrite F, <- (coh_pubval w v (inv_cfg w I) C). unfold pubval. rewrite Hn. reflexivity.
     + destruct (mem_url v gone) eqn:Eg; [apply Hgone in Eg; destruct Eg; congruence|]. exact F.
-  - intros v e He. cbn [s_docs set_lock set_log set_docs] in He. rewrite lookup_filter_matches in He.
-    destruct (matches tg v); [discriminate|exact (inv_docs w I v e He)].
-  - intros v cd Hv. cbn [set_lock set_log set_docs set_open w_open] in Hv. rewrite lookup_filter_matches in Hv.
-    destruct (matches tg v); [discriminate|exact (inv_text w I v cd Hv)].
 Qed.
 
 (* ---------- add-to-dictionary commands: the dictionary files change, then the document is re-read ---------- *)
@@ -615,29 +621,30 @@ Definition same_server (w wd : world) : Prop :=
   s_lock wd = s_lock w /\ s_log wd = s_log w /\ w_disk wd = w_disk w.
 
 Lemma pre_dict_change : forall w wd u, Inv w -> same_server w wd ->
-  (forall v, v <> u -> expected wd v = expected w v) -> pre wd u.
+  (forall v, v <> u -> expected wd v = expected w v /\ want_entry wd v = want_entry w v) -> pre wd u.
 Proof.
   intros w wd u I (Eo & Ec & Es & Ed & El & Eg & Ek) Hexp.
-  unfold pre. rewrite El, Es, Ec. split; [exact (inv_lock w I)|]. split; [exact (inv_cfg w I)|]. split; [|split].
-  - intros v Hv. unfold coh, fresh, pubval, lastword. rewrite Ed, Es, Eg, (Hexp v Hv).
-    split; [exact (inv_coh w I v)|exact (inv_fresh w I v)].
-  - unfold docs_ok. rewrite Ed. exact (inv_docs w I).
-  - unfold texts_ok. rewrite Eo. exact (inv_text w I).
+  unfold pre. rewrite El, Es, Ec. split; [exact (inv_lock w I)|]. split; [exact (inv_cfg w I)|].
+  intros v Hv. destruct (Hexp v Hv) as [E1 E2]. unfold coh, fresh, lastword. rewrite Ed, Eg, E1, E2.
+  split; [exact (inv_coh w I v)|exact (inv_fresh w I v)].
 Qed.
 
-Lemma reread_ready_gen : forall w wd u, Inv w -> same_server w wd -> reread_ok w u = true -> reread_ready wd u.
+Lemma reread_ready_gen : forall w wd u, Inv w -> same_server w wd ->
+  (lookup u (s_docs w) = None -> want_entry wd u = want_entry w u) ->
+  reread_ok w u = true -> reread_ready wd u.
 Proof.
-  intros w wd u I (Eo & Ec & Es & Ed & El & Eg & Ek) R.
+  intros w wd u I (Eo & Ec & Es & Ed & El & Eg & Ek) Hw R.
   assert (Hunread : (is_file u = false \/ lookup u (w_disk w) = None) -> coh wd u).
-  { intro Hu. unfold coh, pubval, expected. rewrite Ed, Es, Eo.
-    pose proof (inv_coh w I u) as C. unfold coh, pubval, expected in C.
-    unfold reread_ok, clean in R. destruct (lookup u (w_open w)) as [cd|] eqn:Eo'.
-    - destruct (kind (cd_lang cd)) eqn:Ek'; try exact C;
-        (destruct Hu as [Hu|Hu]; rewrite Hu in R; [discriminate R|rewrite andb_comm in R; discriminate R]).
-    - exact C. }
+  { intro Hu. unfold coh. rewrite Ed.
+    pose proof (inv_coh w I u) as C. unfold coh in C.
+    destruct (lookup u (s_docs w)) as [e|] eqn:Ee; [|rewrite Hw by reflexivity; exact C].
+    exfalso. destruct (coh_entry w u e (inv_coh w I u) Ee) as (cd & Ho & Hk & _).
+    unfold reread_ok, clean in R. rewrite Ho in R.
+    destruct (kind (cd_lang cd)) eqn:Ek'; try congruence;
+      (destruct Hu as [Hu|Hu]; rewrite Hu in R; [discriminate R|rewrite andb_comm in R; discriminate R]). }
   unfold reread_ready. destruct (is_file u) eqn:Ef; [|apply Hunread; left; reflexivity].
   rewrite Ek. destruct (lookup u (w_disk w)) as [t|] eqn:Edk; [|apply Hunread; right; reflexivity].
-  apply (inv_ready_gen w wd u t I Eo Ed Ec).
+  apply (reread_upd w wd u t (inv_coh w I u) Eo Ed Ec).
   unfold reread_ok, clean in R. rewrite Ef, Edk in R. destruct (lookup u (w_open w)) as [cd|]; [|exact Logic.I].
   destruct (kind (cd_lang cd)); [right|right|left; reflexivity]; cbn in R; apply text_eqb_eq in R; congruence.
 Qed.
@@ -654,6 +661,14 @@ Proof.
   destruct (kind (cd_lang cd)); try discriminate; reflexivity.
 Qed.
 
+(* a document without parser has no entry, whatever the dictionaries are *)
+Lemma want_entry_noparser : forall w wd u, w_open wd = w_open w ->
+  lookup u (s_docs w) = None -> coh w u -> want_entry wd u = want_entry w u.
+Proof.
+  intros w wd u Eo He C. pose proof (coh_no_entry w u C He) as N. unfold want_entry. rewrite Eo.
+  destruct (lookup u (w_open w)) as [cd|]; [rewrite N|]; reflexivity.
+Qed.
+
 Lemma inv_adduser : forall w x u w', Inv w -> op_safeb w (AddUser x u) = true ->
   run_op (AddUser x u) w = Some w' -> Inv w'.
 Proof.
@@ -661,14 +676,15 @@ Proof.
   cbn [op_safeb] in Hs. apply andb_true_iff in Hs as [Hr Hs].
   do 3 (fuel_step H; cbn [exec app] in H).
   cbn [l_word l_ud lset_ud lset_word loc0 w_udict set_udict] in H.
-  set (wd := set_udict (add_word x (w_udict w)) (set_udict [] w)) in *.
+  set (wd := set_udict (add_word x (w_udict w)) w) in *.
   assert (SS : same_server w wd) by (repeat split).
-  assert (Hexp : forall v, v <> u -> expected wd v = expected w v).
-  { intros v Hv. unfold expected, fdict_of, wd. cbn [w_open set_udict w_udict w_fdict w_ccfg].
-    apply orb_true_iff in Hs as [Hs|Hs]; [rewrite (existsb_add_word _ _ Hs); reflexivity|].
-    destruct (lookup v (w_open w)) as [cd|] eqn:Eo; [|reflexivity].
-    rewrite (others_closed_spec w u v cd Hs Hv Eo). reflexivity. }
-  destruct (reread_run _ [] _ wd w' u H eq_refl (pre_dict_change w wd u I SS Hexp) (reread_ready_gen w wd u I SS Hr))
+  assert (Hexp : forall v, v <> u -> expected wd v = expected w v /\ want_entry wd v = want_entry w v).
+  { intros v Hv. unfold expected, want_entry, good_entry, cur_dict, fdict_of, wd. cbn [w_open set_udict w_udict w_fdict w_ccfg].
+    apply orb_true_iff in Hs as [Hs|Hs]; [rewrite (existsb_add_word _ _ Hs); split; reflexivity|].
+    destruct (lookup v (w_open w)) as [cd|] eqn:Eo; [|split; reflexivity].
+    rewrite (others_closed_spec w u v cd Hs Hv Eo). split; reflexivity. }
+  destruct (reread_run _ [] _ wd w' u H eq_refl (pre_dict_change w wd u I SS Hexp)
+              (reread_ready_gen w wd u I SS (fun He => want_entry_noparser w wd u eq_refl He (inv_coh w I u)) Hr))
     as (f' & l' & w1 & H1 & I1 & _).
   apply run_nil in H1. subst w'. exact I1.
 Qed.
@@ -683,12 +699,13 @@ Proof.
   - cbn [negb] in Hs. rewrite orb_false_r in Hs. cbn [app] in H.
     do 2 (fuel_step H; cbn [exec app] in H).
     cbn [l_url l_word l_fd lset_fd lset_word loc0 w_fdict set_fdict] in H.
-    set (wd := set_fdict _ (set_fdict _ w)) in *.
+    set (wd := set_fdict _ w) in *.
     assert (SS : same_server w wd) by (repeat split).
-    assert (Hexp : forall v, v <> u -> expected wd v = expected w v).
-    { intros v Hv. apply url_eqb_neq in Hv. unfold expected, fdict_of, wd. cbn [w_open set_fdict w_udict w_fdict w_ccfg].
-      rewrite !lookup_upsert_neq by exact Hv. reflexivity. }
-    destruct (reread_run _ [] _ wd w' u H eq_refl (pre_dict_change w wd u I SS Hexp) (reread_ready_gen w wd u I SS Hs))
+    assert (Hexp : forall v, v <> u -> expected wd v = expected w v /\ want_entry wd v = want_entry w v).
+    { intros v Hv. apply url_eqb_neq in Hv. unfold expected, want_entry, good_entry, cur_dict, fdict_of, wd. cbn [w_open set_fdict w_udict w_fdict w_ccfg].
+      rewrite !lookup_upsert_neq by exact Hv. split; reflexivity. }
+    destruct (reread_run _ [] _ wd w' u H eq_refl (pre_dict_change w wd u I SS Hexp)
+                (reread_ready_gen w wd u I SS (fun He => want_entry_noparser w wd u eq_refl He (inv_coh w I u)) Hs))
       as (f' & l' & w1 & H1 & I1 & _).
     apply run_nil in H1. subst w'. exact I1.
   - cbn [app] in H. fuel_step H. cbn [exec] in H. cbn [l_url lset_fd lset_word loc0] in H. rewrite Ef in H. cbn [app] in H.
@@ -698,71 +715,65 @@ Qed.
 
 (* ---------- didChangeConfiguration: every document of doc_state is re-read, in some order ---------- *)
 Definition after_install (w : world) (u : url) (t : text) : world :=
-  let w1 := set_docs (installed w u t None) (set_scfg (w_ccfg w) w) in send u (pubval w1 u) w1.
+  let w1 := set_docs (installed w u t None None) (set_scfg (w_ccfg w) w) in send u (pubval w1 u) w1.
+
+Definition text_on_disk (w : world) (v : url) (t : text) : Prop :=
+  match lookup v (w_open w) with Some cd => kind (cd_lang cd) = KNone \/ cd_text cd = t | None => True end.
 
 Definition qready (w : world) (v : url) : Prop :=
-  is_file v = true /\ exists t, lookup v (w_disk w) = Some t /\ ready w v t None /\ entry_cond w v t None.
+  is_file v = true /\ exists t, lookup v (w_disk w) = Some t /\ text_on_disk w v t /\
+    upd_entry w v t None None = want_entry w v.
 
 Definition CInv (w : world) (q : list url) : Prop :=
-  s_lock w = false /\ s_cfg w = w_ccfg w /\ docs_ok w /\ texts_ok w /\
+  s_lock w = false /\ s_cfg w = w_ccfg w /\
   (forall v, In v q -> qready w v) /\ (forall v, (coh w v /\ fresh w v) \/ In v q).
 
-Lemma lookup_installed_eq : forall w u t,
-  lookup u (installed w u t None) =
-  match lookup u (s_docs w) with
-  | Some e => Some (e_set_doc t (w_ccfg w) (if dictv_eqb (e_dict e) (cur_dict w u) then e else e_set_dict (cur_dict w u) (w_ccfg w) e))
-  | None => None
-  end.
+Lemma qready_after_install : forall w u t v,
+  upd_entry w u t None None = want_entry w u -> qready w v -> qready (after_install w u t) v.
 Proof.
-  intros. unfold installed. destruct (lookup u (s_docs w)); [apply lookup_upsert_eq|apply lookup_remove_eq].
-Qed.
-
-Lemma qready_after_install : forall w u t v, ready w u t None -> qready w v -> qready (after_install w u t) v.
-Proof.
-  intros w u t v Ru (Hf & t' & Hd & Hr & He). split; [exact Hf|]. exists t'. split; [exact Hd|].
-  unfold ready, entry_cond in *. unfold after_install.
-  cbn [w_open send set_log set_docs set_scfg s_docs w_ccfg].
-  change (cur_dict (send u _ _) v) with (cur_dict w v).
+  intros w u t v Ru (Hf & t' & Hd & Hx & Hr). split; [exact Hf|]. exists t'. split; [exact Hd|]. split; [exact Hx|].
+  unfold after_install.
+  match goal with |- upd_entry ?W v t' None None = want_entry ?W v => change (want_entry W v) with (want_entry w v) end.
   destruct (url_eq_dec v u) as [->|Hv].
-  - rewrite lookup_installed_eq.
-    destruct (lookup u (w_open w)) as [cd|] eqn:Eo.
-    + destruct (lookup u (s_docs w)) as [e|] eqn:Ee.
-      * destruct Hr as (A & B & C & D & E). destruct He as (lge & L1 & L2 & L3).
-        destruct (dictv_eqb (e_dict e) (cur_dict w u)) eqn:Ed; cbn [e_set_doc e_set_dict e_lang e_dict e_lcfg e_ign e_ident].
-        -- split; [refine (conj A (conj B (conj C (conj _ E)))); intros _; apply D; apply dictv_eqb_eq, Ed
-                  |exists lge; exact (conj L1 (conj L2 L3))].
-        -- split; [refine (conj A (conj B (conj C (conj _ E)))); intros _; reflexivity
-                  |exists lge; exact (conj L1 (conj L2 L3))].
-      * split; [exact Hr|exact He].
-    + destruct Hr as [Hn _]. rewrite Hn in *. split; [split; reflexivity|exact He].
-  - apply url_eqb_neq in Hv.
-    assert (Hlk : lookup v (installed w u t None) = lookup v (s_docs w)).
-    { unfold installed. destruct (lookup u (s_docs w)); rewrite ?lookup_upsert_neq, ?lookup_remove_neq by exact Hv; reflexivity. }
-    rewrite Hlk. split; assumption.
+  - (* the same document a second time: it is up to date now *)
+    set (w2 := send u _ _).
+    assert (C2 : coh w2 u).
+    { unfold coh, w2. cbn [s_docs send set_log set_docs]. rewrite lookup_installed_eq. exact Ru. }
+    change (want_entry w u) with (want_entry w2 u).
+    apply (reread_upd w2 w2 u t' C2); try reflexivity. exact Hx.
+  - rewrite <- Hr. apply upd_entry_same; try reflexivity.
+    cbn [s_docs send set_log set_docs]. apply lookup_installed_neq, Hv.
 Qed.
 
 Lemma cfg_loop : forall q f l w w', l_queue l = q -> CInv w q -> run_prog f [ICfgNext] l w = Some w' -> Inv w'.
 Proof.
-  induction q as [|v q IH]; intros f l w w' Hq (Hl & Hc & Hd & Ht & Hrdy & Hor) H.
+  induction q as [|v q IH]; intros f l w w' Hq (Hl & Hc & Hrdy & Hor) H.
   - fuel_step H. cbn [exec] in H. rewrite Hq in H. cbn [app] in H. apply run_nil in H. subst w'.
     constructor; try assumption.
     + intro v. destruct (Hor v) as [[C _]|[]]. exact C.
     + intro v. destruct (Hor v) as [[_ F]|[]]. exact F.
   - fuel_step H. cbn [exec] in H. rewrite Hq in H. cbn [app] in H.
-    destruct (Hrdy v (or_introl eq_refl)) as (Hf & t & Hdk & Hr & He).
+    destruct (Hrdy v (or_introl eq_refl)) as (Hf & t & Hdk & Hx & Hr).
     fuel_step H. cbn [exec] in H. cbn [l_url lset_queue lset_text lset_url] in H. rewrite Hf, Hdk in H.
-    set (l2 := lset_lang None _) in H.
-    assert (EC : entry_cond w (l_url l2) t (l_lang l2)) by exact He.
-    destruct (upd_pub_run _ [ICfgNext] l2 w w' t Hl eq_refl EC H) as (f' & l' & H1 & _ & Hq').
-    cbn [l_url l_lang l2 lset_lang lset_text lset_queue lset_url] in H1.
+    set (l2 := lset_ver None _) in H.
+    destruct (upd_pub_run _ [ICfgNext] l2 w w' t Hl eq_refl H) as (f' & l' & H1 & _ & Hq').
+    cbn [l_url l_lang l_ver l2 lset_lang lset_ver lset_text lset_queue lset_url] in H1.
     change (send v _ _) with (after_install w v t) in H1.
-    destruct (install_spec w v t None Hl Hc Hd Ht Hr) as ((Cu & Fu) & Hd2 & Hfr & Hexp).
+    assert (Hown : coh (after_install w v t) v /\ fresh (after_install w v t) v).
+    { unfold after_install. set (w1 := set_docs (installed w v t None None) (set_scfg (w_ccfg w) w)).
+      assert (C : coh w1 v).
+      { unfold coh, w1. cbn [s_docs set_docs]. rewrite lookup_installed_eq. exact Hr. }
+      split; [exact C|]. unfold fresh. rewrite lastword_send, url_eqb_refl.
+      change (expected (send v (pubval w1 v) w1) v) with (expected w1 v).
+      apply coh_pubval; [reflexivity|exact C]. }
     apply (IH f' l' (after_install w v t) w'); [exact Hq'| |exact H1].
-    split; [exact Hl|]. split; [reflexivity|]. split; [exact Hd2|]. split; [exact Ht|]. split.
+    split; [exact Hl|]. split; [reflexivity|]. split.
     + intros v' Hin. apply qready_after_install; [exact Hr|]. apply Hrdy. right. exact Hin.
-    + intro v'. destruct (url_eq_dec v' v) as [->|Hv]; [left; split; [exact Cu|exact Fu]|].
+    + intro v'. destruct (url_eq_dec v' v) as [->|Hv]; [left; exact Hown|].
       destruct (Hor v') as [[C F]|[E|Hin]]; [left|congruence|right; exact Hin].
-      destruct (Hfr v' Hv) as (_ & P & L). unfold coh, fresh, after_install. rewrite P, L, Hexp. split; assumption.
+      split.
+      * unfold coh, after_install in *. cbn [s_docs send set_log set_docs]. rewrite lookup_installed_neq by exact Hv. exact C.
+      * unfold fresh, after_install in *. rewrite lastword_send. apply url_eqb_neq in Hv. rewrite Hv. exact F.
 Qed.
 
 Lemma inv_cfgchange : forall w c order w', Inv w -> op_safeb w (CfgChange c order) = true ->
@@ -776,33 +787,38 @@ Proof.
   apply (cfg_loop _ _ _ wc w' eq_refl) in H; [exact H|]. clear H.
   assert (Hlk : forall v, lookup v (s_docs wc) = option_map (e_set_lcfg c) (lookup v (s_docs w))).
   { intro v. unfold wc. cbn [s_docs set_docs]. apply lookup_map_val. }
-  split; [exact (inv_lock w I)|]. split; [reflexivity|]. split; [|split; [exact (inv_text w I)|split]].
-  - intros v e He. rewrite Hlk in He. destruct (lookup v (s_docs w)) as [e0|] eqn:Ee; [|discriminate].
-    inversion He; subst e. cbn. exact (inv_docs w I v e0 Ee).
+  split; [exact (inv_lock w I)|]. split; [reflexivity|]. split.
   - intros v Hin. cbn [l_queue lset_queue] in Hin. apply order_keys_sound in Hin.
     apply keys_In_lookup in Hin as [e Ee].
-    destruct (entry_facts w v e I Ee) as (cd & Hc & H1 & H2 & H3 & H4 & H5 & H6 & H7 & H8).
-    destruct (lookup_In v (w_open w) cd Hc) as (k & Hk & Ek). apply url_eqb_eq in Ek. subst k.
-    pose proof (Hs (v, cd) Hk) as R. cbn [fst] in R. unfold reread_ok, clean in R. rewrite Hc in R.
+    destruct (coh_entry w v e (inv_coh w I v) Ee) as (cd & Hc & Hk & ->).
+    destruct (lookup_In v (w_open w) cd Hc) as (k & Hkin & Ek). apply url_eqb_eq in Ek. subst k.
+    pose proof (Hs (v, cd) Hkin) as R. cbn [fst] in R. unfold reread_ok, clean in R. rewrite Hc in R.
     assert (Hcl : is_file v && match lookup v (w_disk w) with Some t => text_eqb t (cd_text cd) | None => false end = true)
       by (destruct (kind (cd_lang cd)); try exact R; congruence).
     apply andb_true_iff in Hcl as [Hf Hdk]. destruct (lookup v (w_disk w)) as [t|] eqn:Edk; [|discriminate].
     apply text_eqb_eq in Hdk. subst t.
-    split; [exact Hf|]. exists (cd_text cd). split; [exact Edk|].
-    unfold ready, entry_cond. rewrite Hlk, Ee. change (w_open wc) with (w_open w). rewrite Hc. cbn [option_map].
-    split.
-    + cbn. repeat split; try assumption. 
-    + exists (cd_lang cd). cbn. repeat split; try assumption. intro Hkc.
-      pose proof (inv_text w I v cd Hc) as Tk. unfold text_ok in Tk. rewrite Hkc in Tk. apply Nat.eqb_eq in Tk. congruence.
+    split; [exact Hf|]. exists (cd_text cd). split; [exact Edk|]. split.
+    + unfold text_on_disk. change (w_open wc) with (w_open w). rewrite Hc. right. reflexivity.
+    + unfold want_entry. change (w_open wc) with (w_open w). rewrite Hc.
+      rewrite (upd_entry_spec wc v (cd_text cd) None None (cd_lang cd) (cur_dict w v) (idof (cd_lang cd) (cd_text cd)) c
+                 (Some (cd_text cd)) (w_ccfg w) (cd_ign cd) (with_ident (cur_dict w v) (idof (cd_lang cd) (cd_text cd))) (cd_ver cd)).
+      * unfold good_entry. destruct (kind (cd_lang cd)); [reflexivity|reflexivity|congruence].
+      * rewrite Hlk, Ee. reflexivity.
+      * exact Hk.
+      * apply idof_plain.
+      * reflexivity.
+      * reflexivity.
   - intro v. cbn [l_queue lset_queue].
     destruct (lookup v (s_docs w)) as [e|] eqn:Ee.
     + right. apply order_keys_complete. eapply lookup_In_keys, Ee.
-    + left. pose proof (no_entry_facts w v I Ee) as N. pose proof (inv_fresh w I v) as F. pose proof (inv_coh w I v) as C.
-      unfold coh, fresh, pubval in *. rewrite Hlk, Ee in *. cbn [option_map].
-      change (lastword wc v) with (lastword w v). 
-      assert (Hexp : expected wc v = PEmpty /\ expected w v = PEmpty).
-      { unfold expected. change (w_open wc) with (w_open w). destruct (lookup v (w_open w)) as [cd|]; [rewrite N|]; split; reflexivity. }
-      destruct Hexp as [E1 E2]. rewrite E1. rewrite E2 in F. split; [reflexivity|exact F].
+    + left. pose proof (coh_no_entry w v (inv_coh w I v) Ee) as N. pose proof (inv_fresh w I v) as F.
+      split.
+      * unfold coh. rewrite Hlk, Ee. cbn [option_map]. unfold want_entry. change (w_open wc) with (w_open w).
+        destruct (lookup v (w_open w)) as [cd|]; [rewrite N|]; reflexivity.
+      * unfold fresh in *. change (lastword wc v) with (lastword w v).
+        assert (Hexp : expected wc v = PEmpty /\ expected w v = PEmpty).
+        { unfold expected. change (w_open wc) with (w_open w). destruct (lookup v (w_open w)) as [cd|]; [rewrite N|]; split; reflexivity. }
+        destruct Hexp as [E1 E2]. rewrite E1. rewrite E2 in F. exact F.
 Qed.
 
 (* ---------- histories ---------- *)
@@ -843,8 +859,6 @@ Proof.
   - reflexivity.
   - intro u. reflexivity.
   - intro u. reflexivity.
-  - intros u e H. discriminate H.
-  - intros u cd H. discriminate H.
 Qed.
 
 (* C09, sequential clause *)
@@ -854,7 +868,7 @@ Theorem sequential : forall h c w,
             (lookup u (w_open w) = None -> lastword w u = PEmpty).
 Proof.
   intros h c w Hs H u. pose proof (inv_seq h (world0 c) w (inv_world0 c) Hs H) as I.
-  split; [exact (inv_fresh w I u)|]. split; [exact (inv_coh w I u)|].
+  split; [exact (inv_fresh w I u)|]. split; [exact (coh_pubval w u (inv_cfg w I) (inv_coh w I u))|].
   intro Hn. rewrite (inv_fresh w I u). unfold expected. rewrite Hn. reflexivity.
 Qed.
 
@@ -876,18 +890,20 @@ Section Diagnostics.
   Proof. intros h c w Hs H u. destruct (sequential h c w Hs H u) as [E _]. rewrite E. reflexivity. Qed.
 End Diagnostics.
 
-(* non-vacuity: a history with every kind of message satisfies the side conditions and runs *)
+(* non-vacuity: a history with every kind of message (a source file WITH identifiers included) satisfies
+   the side conditions and runs *)
 Definition demo_history : list op :=
-  [Open (UFile 0 0) LMarkdown (mktext 0 0); Change (UFile 0 0) (mktext 1 0); Save (UFile 0 0);
+  [Open (UFile 0 0) LMarkdown (mktext 0 0) 1; Change (UFile 0 0) (mktext 1 0) 2; Save (UFile 0 0);
    AddUser 3 (UFile 0 0); AddFile 4 (UFile 0 0); Ignore (UFile 0 0) 1; RecordLint;
-   CfgChange 1 [UFile 0 0]; Open (UUntitled 0) LUnknown (mktext 2 0); Change (UUntitled 0) (mktext 3 0);
-   Open (UFile 0 1) LCode (mktext 4 0); Save (UFile 0 1); CfgChange 2 []; Close (UFile 0 1);
-   Open (UFile 1 0) LPlain (mktext 5 0); Delete (TDir 1); Change (UFile 0 0) (mktext 6 0)].
+   CfgChange 1 [UFile 0 0]; Open (UUntitled 0) LUnknown (mktext 2 0) 1; Change (UUntitled 0) (mktext 3 0) 2;
+   Open (UFile 0 1) LCode (mktext 4 7) 1; Change (UFile 0 1) (mktext 7 7) 2; Change (UFile 0 1) (mktext 8 9) 3; Save (UFile 0 1);
+   CfgChange 2 []; Close (UFile 0 1);
+   Open (UFile 1 0) LPlain (mktext 5 0) 1; Delete (TDir 1); Change (UFile 0 0) (mktext 6 0) 3].
 
 Example demo_history_safe :
   seq_safeb demo_history (world0 0) = true /\
   exists w, run_seq demo_history (world0 0) = Some w /\
     lastword w (UFile 0 0) =
-      PDiag (mkargs (mktext 6 0) LMarkdown (mkdict [3] [4] 0) 2 2 2 [1]) /\
+      PDiag (mkargs (mktext 6 0) LMarkdown (mkdict [3] [4] 0) (mkdict [3] [4] 0) 2 2 2 [1]) /\
     lastword w (UFile 0 1) = PEmpty /\ lastword w (UFile 1 0) = PEmpty.
 Proof. split; [vm_compute; reflexivity|]. eexists. split; [vm_compute; reflexivity|]. repeat split; vm_compute; reflexivity. Qed.
